@@ -57,6 +57,8 @@ func checkC05(c *Ctx) {
 	c.Expect("C05-R5", 1)
 	c.Rule("C05-R15", "PollEvent returns every event it takes off the queue: the received value is what is returned, and the receive does not sit in a loop that could drop it and wait for another")
 	c.Expect("C05-R15", 1)
+	c.Rule("C05-R16", "a parser takes out of the buffer exactly what it recognised: what follows a complete sequence (the next key, the ESC of the next report) stays for the next scan (= C02-R9)")
+	c.Expect("C05-R16", 8)
 	c.Assume("Go channels are FIFO; one producer and one consumer per lane preserve order")
 	cfgs := []string{"linux", "wasm"} // the browser callbacks are event producers too
 	if c.Tier == "thorough" {
@@ -87,6 +89,11 @@ func checkC05(c *Ctx) {
 		checkStopQIsQuit(c, p, "C05-R13", "tScreen")
 		checkAppendedEventsConstructed(c, p, "C05-R14")
 		checkPollReturnsWhatItReceives(c, p, "C05-R15")
+		c.asRule("C02-R9", "C05-R16", func() {
+			for _, pi := range inputParsers(p) {
+				c02Consumption(c, p, pi)
+			}
+		})
 		checkStopQIsQuit(c, p, "C05-R13", "simscreen")
 	}
 }
